@@ -407,19 +407,36 @@ structure GdefOk (g : GdefV) : Prop where
 def GdefV.Matches (g : GdefV) (r : Gdef.Read) : Prop :=
   Gdef.ClassMatch g.gc r.gc ∧ Gdef.ClassMatch g.mac r.mac ∧ r.sets = g.sets
 
-theorem gdef_roundtrip_value (g : GdefV) (hg : GdefOk g) (b : Bytes) (hb : g.encode = .ok b) :
-    ∃ r, Gdef.read b = .ok r ∧ g.Matches r := by
+/-- the normal form of a GDEF table: class tables as the reader returns them (`ClassDef.nfTab`: the
+non-zero entries), mark glyph sets unchanged -/
+def GdefV.nf (g : GdefV) : Gdef.Read := ⟨g.gc.map ClassDef.nfTab, g.mac.map ClassDef.nfTab, g.sets⟩
+
+/-- **GDEF round trip as an equation** -/
+theorem gdef_roundtrip_eq (g : GdefV) (hg : GdefOk g) (b : Bytes) (hb : g.encode = .ok b) :
+    Gdef.read b = .ok g.nf ∧ g.Matches g.nf := by
   unfold GdefV.encode at hb
   cases hs : g.sets with
   | none =>
     rw [hs] at hb
-    obtain ⟨r, h1, h2, h3, h4⟩ := Gdef.roundtrip_noSets g.gc g.mac hg.gc hg.mac b hb
-    exact ⟨r, h1, h2, h3, by rw [h4, hs]⟩
+    obtain ⟨r, h1, h2, h3, h4, h5, h6⟩ := Gdef.roundtrip_noSets g.gc g.mac hg.gc hg.mac b hb
+    have : r = g.nf := by
+      cases r with
+      | mk a c d => simp only at h4 h5 h6; simp [GdefV.nf, h4, h5, h6, hs]
+    subst this
+    exact ⟨h1, h2, h3, by rw [h4, hs]⟩
   | some ss =>
     rw [hs] at hb
     obtain ⟨v1, v2, v3⟩ := hg.sets ss hs
-    obtain ⟨r, h1, h2, h3, h4⟩ := Gdef.roundtrip_sets g.gc g.mac ss hg.gc hg.mac v1 v2 v3 b hb
-    exact ⟨r, h1, h2, h3, by rw [h4, hs]⟩
+    obtain ⟨r, h1, h2, h3, h4, h5, h6⟩ := Gdef.roundtrip_sets g.gc g.mac ss hg.gc hg.mac v1 v2 v3 b hb
+    have : r = g.nf := by
+      cases r with
+      | mk a c d => simp only at h4 h5 h6; simp [GdefV.nf, h4, h5, h6, hs]
+    subst this
+    exact ⟨h1, h2, h3, by rw [h4, hs]⟩
+
+theorem gdef_roundtrip_value (g : GdefV) (hg : GdefOk g) (b : Bytes) (hb : g.encode = .ok b) :
+    ∃ r, Gdef.read b = .ok r ∧ g.Matches r :=
+  ⟨g.nf, gdef_roundtrip_eq g hg b hb⟩
 
 /-! ### decoders in the shape of the file-level model (C01: `LayoutDec`)
 
